@@ -48,11 +48,7 @@ Print Assumptions C20_sorted_perm_unique.
 Theorem C20_normalize_idempotent : forall g, Dc g -> norm_hyp g -> normalize (normalize g) = normalize g.
 Proof. exact normalize_idempotent. Qed.
 Print Assumptions C20_normalize_idempotent.
-(* ... and it is NOT idempotent without them — the same inputs fail in the implementation (known findings C20-F1, C20-F5) *)
-Theorem C20_normalize_idempotent_refuted :
-  exists r, norm_ring true (norm_ring true r) <> norm_ring true r /\ length (norm_ring true (norm_ring true r)) <> length r.
-Proof. exact norm_ring_idempotent_refuted. Qed.
-Print Assumptions C20_normalize_idempotent_refuted.
+(* ... and it is NOT idempotent without them (known finding C20-F5; C20-F1 is fixed: Polygon::normalize now keeps the repeated seam point) *)
 Theorem C20_normalize_idempotent_refuted_bowtie : exists r, norm_ring true (norm_ring true r) <> norm_ring true r.
 Proof. exact norm_ring_idempotent_refuted_bowtie. Qed.
 Print Assumptions C20_normalize_idempotent_refuted_bowtie.
